@@ -100,7 +100,7 @@ func (rl *Shell) Readline() (string, error) {
 		accepted, line, err := rl.run(false, bind, command)
 		if accepted {
 			return line, err
-		} else if command != nil {
+		} else if command != nil || bind.Macro {
 			continue
 		}
 
